@@ -7,6 +7,7 @@ os.environ["VERIF_NO_INLINE"] = "1"
 from sa import facts as F
 names = set()
 roots = set()
+sigs = {}
 for feats in (None, "pcre2"):
     try:
         fb = F.load(F.REPO, features=feats)
@@ -14,6 +15,9 @@ for feats in (None, "pcre2"):
         print("configuration %s not extracted: %s" % (feats, e))
         continue
     names |= {p for p in fb.fns if "{closure" not in p}
+    for p, f in fb.fns.items():
+        if "{closure" not in p and p not in sigs:
+            sigs[p] = F.fn_sig(f.d)
     # functions in which a local closure is called by name (`let f = |..| ..; f(x)`): a function outside this list that
     # does so got the closure from a refactoring, and the closure's body is read where it is called
     for p, f in fb.fns.items():
@@ -24,4 +28,5 @@ for feats in (None, "pcre2"):
 names = sorted(names)
 json.dump(names, open(os.path.join(os.path.dirname(os.path.dirname(os.path.abspath(__file__))), "sa", "baseline_fns.json"), "w"), indent=0)
 json.dump(sorted(roots), open(os.path.join(os.path.dirname(os.path.dirname(os.path.abspath(__file__))), "sa", "baseline_closure_calls.json"), "w"), indent=0)
+json.dump(sigs, open(os.path.join(os.path.dirname(os.path.dirname(os.path.abspath(__file__))), "sa", "baseline_sigs.json"), "w"))
 print("baseline functions:", len(names), "functions calling a local closure by name:", len(roots))
